@@ -1,5 +1,6 @@
 //! Single-threaded monitors: C11–C17, C20. Runs natively and under Miri.
 
+mod c11;
 mod c13;
 mod c14;
 mod c15;
@@ -15,6 +16,7 @@ fn main() {
     let args = Args::parse();
     let mut rep = Report::new(&args);
     match args.prop.as_str() {
+        "C11" | "C12" => c11::run(&args, &mut rep),
         "C13" => c13::run(&args, &mut rep),
         "C14" => c14::run(&args, &mut rep),
         "C15" => c15::run(&args, &mut rep),
